@@ -44,7 +44,7 @@ func (rc *relCounter) list(t *rapid.T, label string, max int) []string {
 	return out
 }
 
-var semverPre = rapid.StringMatching(`(alpha|beta|rc|pre)(\.(0|[1-9][0-9]?))?(-[a-z0-9]{1,3})?`) // numeric identifiers without leading zeros
+var semverPre = rapid.StringMatching(`(alpha|beta|rc|pre)(\.(0|[1-9][0-9]?))?(-[a-z0-9]{1,3})?`)     // numeric identifiers without leading zeros
 var semverMeta = rapid.StringMatching(`(git|build|p)?[0-9a-f]{1,6}(\.[0-9]{1,2})?(-[0-9a-z]{1,4})?`) // build metadata may contain hyphens
 
 // genFullMeta draws identity, version parts, descriptive fields and relations.
